@@ -1,11 +1,39 @@
 /-
   Props/C03.lean — property theorems for C03 (classic compiler output computes what the
-  source means).  (interim: the classic symbol-table / NodePath theorems are added once the
-  C04 path-composition lemmas are merged)
+  source means).
+
+  What is kernel-checked here, for ALL parameter / constants trees and ALL path widths, is the
+  classic compiler's own environment layout and path assignment
+  (stage_2/module.rs: `symbol_table_for_tree`, `is_at_capture`, `build_tree`,
+  `build_tree_program`, the root choice of `finish_compile_from_collection`, the first-match
+  resolution of `transform_program_atom`; model `Lang/ClassicEnv.lean`, tied to the real code by
+  `cvh classicenv` / `modeld classicenv`):
+
+    * every entry of a symbol table addresses, in the run-time environment, exactly the value
+      the source-level destructuring (`Lang.bindPat`) binds to that occurrence of the name, and
+      the entry the compiler uses (the first) addresses the binding the source semantics uses;
+    * the classic assignment equals the modern `create_name_lookup_` composed under the root
+      (classic and cl21 address parameters identically);
+    * `build_tree_program` builds the constants in the shape the constants table is read from,
+      so in `(CONSTANTS . ARGS)` constants are found under `NodePath.first()` and arguments under
+      `NodePath.rest()`, parameters shadowing constants.
+
+  NO side condition on depth or path value is needed: `symbol_table_for_tree` only ever calls
+  `NodePath::new` on a non-negative composition, so the `get_u32` little-endian cast defect
+  (finding C04-get-u32-path) is NOT reachable from the path assignment (`node_path_add_exact`).
+  It IS reachable from the classic compiler as a whole through the optimiser it runs on its
+  output (`deep_path_optimizer_counterexample`, finding C03-deep-path-get-u32).
+
+  FULL PROPERTY (not proved as one theorem): for every classic program `P` and argument `a`,
+  `evalSrc P a = ok v → Evaluates ops (classicCompile P) a v`.  The macro expansion / `com` /
+  `opt` machinery is not modelled beyond the optimiser (C04); it is decided differentially
+  against `Lang.evalSrc` (tools/props/c03.py).
 -/
 import ChialispModel.Props.C01
+import ChialispModel.Proofs.ClassicEnvLemmas
 
 namespace C03
+open ClassicEnv
 
 /-- the classic compiler's `symbol_table_for_tree` assigns the same paths as the modern
     `create_name_lookup_` (both walk the parameter tree head-first, `(@ name pat)` naming the
@@ -15,5 +43,216 @@ theorem parameter_paths_correct (name : Bytes) (pat : Rich) (hok : Lang.patOk pa
     (hb : Lang.bindPat pat (Lang.SV.ofVal v) = some ρ) :
     ∃ w, Lang.lookupEnv name ρ = some (Lang.SV.ofVal w) ∧ Path.lookupNat p v = .ok w :=
   C01.name_lookup_correct name pat hok p h v ρ hb
+
+/-- the exact shape `is_at_capture` accepts: the head is the atom `@` and the rest is a proper
+    list (terminated by the empty atom) of exactly two nodes — the capture "name" `c` may be ANY
+    node, `(@ n)`, `(@ n p q)` and `(@ n . p)` are ordinary lists. -/
+theorem is_at_capture_shape (tf tr c d : Val) :
+    isAtCapture tf tr = some (c, d) ↔ tf = .atom [64] ∧ tr = .pair c (.pair d (.atom [])) :=
+  isAtCapture_iff tf tr c d
+
+example : isAtCapture (.atom [64]) (.pair (.pair (.atom [88]) (.atom [89])) (.pair (.atom [90]) (.atom [])))
+    = some (.pair (.atom [88]) (.atom [89]), .atom [90]) := by decide
+example : isAtCapture (.atom [64]) (.pair (.atom [88]) (.atom [])) = none := by decide
+example : isAtCapture (.atom [64]) (.pair (.atom [88]) (.pair (.atom [89]) (.atom [90]))) = none := by decide
+
+/-- **every entry of a classic symbol table is right** (all trees, all depths, no width bound).
+    For a parameter pattern `pat` (assembled: `patVal pat`) walked from `root`, and ANY run-time
+    environment `E` holding at `root` a value `v` that destructures against `pat`: the table and
+    the source-level environment `ρ` are aligned entry by entry — same name, and the entry's path
+    atom, read as clvmr reads it (`Path.lookup` = unsigned big-endian), selects in `E` exactly
+    the value bound to THAT occurrence of the name. -/
+theorem symbol_table_paths_correct (pat : Rich) (hok : classicPatOk pat = true)
+    (root : Nat) (hroot : 1 ≤ root) (E v : Val) (hE : Path.lookupNat root E = .ok v)
+    (ρ : Lang.Env) (hb : Lang.bindPat pat (Lang.SV.ofVal v) = some ρ) :
+    Aligned (EntryOk E) (symbolTableForTree (patVal pat) root) ρ :=
+  symTab_forall₂_aux pat (Lang.SV.ofVal v) hok root hroot E v rfl hE ρ hb
+
+/-- **the entry the compiler uses.**  `com` replaces a name by the path of the FIRST table entry
+    with that name (`transform_program_atom`); that path selects the FIRST source-level binding
+    of the name (`Lang.lookupEnv`), i.e. the value the source semantics gives the name — also
+    when the name is repeated in the pattern or both captured and destructured. -/
+theorem symbol_table_first_entry_correct (pat : Rich) (hok : classicPatOk pat = true)
+    (root : Nat) (hroot : 1 ≤ root) (E v : Val) (hE : Path.lookupNat root E = .ok v)
+    (ρ : Lang.Env) (hb : Lang.bindPat pat (Lang.SV.ofVal v) = some ρ)
+    (name pb : Bytes) (hf : firstSymbol name (symbolTableForTree (patVal pat) root) = some pb) :
+    ∃ w, Lang.lookupEnv name ρ = some (Lang.SV.ofVal w) ∧ Path.lookup pb E = .ok w :=
+  firstSymbol_aligned E name _ ρ (symbol_table_paths_correct pat hok root hroot E v hE ρ hb) pb hf
+
+/-- non-vacuity: `(X (@ Y (X Z)) . W)` walked from `rest` (root 3) in `(C . (1 (2 3) . 4))`:
+    `X` is repeated — the first entry (path 5) selects 1, the binding the source semantics uses. -/
+def exPat : Rich :=
+  .cons (.atom [88]) (.cons (.cons (.atom [64]) (.cons (.atom [89]) (.cons (.cons (.atom [88]) (.cons (.atom [90]) .nil)) .nil))) (.atom [87]))
+def exArgs : Val :=
+  .pair (.atom [1]) (.pair (.pair (.atom [2]) (.pair (.atom [3]) (.atom []))) (.atom [4]))
+example : classicPatOk exPat = true := by decide
+example : symbolTableForTree (patVal exPat) 3
+    = [(.atom [88], [5]), (.atom [89], [11]), (.atom [88], [19]), (.atom [90], [43]), (.atom [87], [15])] := by decide
+example : (Lang.bindPat exPat (Lang.SV.ofVal exArgs)).isSome = true := by decide
+example : firstSymbol [88] (symbolTableForTree (patVal exPat) 3) = some [5] := by decide
+example : Path.lookup [5] (.pair (.atom [99]) exArgs) = .ok (.atom [1]) := rfl
+
+/-- **classic = modern addressing.**  The path the classic table gives a name (first entry) is
+    the path the modern `create_name_lookup_` computes for it, composed under the root; a name
+    absent from one is absent from the other. -/
+theorem classic_modern_paths_agree (name : Bytes) (pat : Rich) (hok : classicPatOk pat = true)
+    (root : Nat) (hroot : 1 ≤ root) :
+    firstSymbol name (symbolTableForTree (patVal pat) root)
+      = (Lang.nameLookup name pat).map (fun p => NodePath.asPath (Path.compose root p)) :=
+  firstSymbol_eq_nameLookup name pat root hroot hok
+
+example : Lang.nameLookup [90] exPat = some 21 ∧ Path.compose 3 21 = 43 ∧
+    firstSymbol [90] (symbolTableForTree (patVal exPat) 3) = some [43] := by decide
+
+/-- what `classicPatOk` excludes is a real difference, not a proof artefact: the integer 64 is
+    the byte `@` for the classic reader, so `(64 N P)` is a capture for the classic compiler and
+    a three-element list for the source semantics (same family as finding C01-F6). -/
+theorem classic_pattern_int64_counterexample :
+    classicPatOk (.cons (.int 64) (.cons (.atom [78]) (.cons (.atom [80]) .nil))) = false ∧
+    symbolTableForTree (patVal (.cons (.int 64) (.cons (.atom [78]) (.cons (.atom [80]) .nil)))) 1
+      = [(.atom [78], [1]), (.atom [80], [1])] ∧
+    Lang.nameLookup [80] (.cons (.int 64) (.cons (.atom [78]) (.cons (.atom [80]) .nil))) = some 11 := by
+  decide
+
+/-- **no width condition.**  `root_node.add(first/rest)` is exact for EVERY root: what `as_path`
+    writes is read back by clvmr as the composed path.  (`add` calls `NodePath::new` on a
+    non-negative number only, so the `get_u32` cast is never reached.) -/
+theorem node_path_add_exact (a b : Nat) (hb : 1 ≤ b) :
+    Bytes.toNatBE (NodePath.asPath (NodePath.add a b)) = Path.compose a b := by
+  rw [NodePath.add_eq a b hb]
+  exact BytesAlg.toNatBE_ofNatBE _
+
+/-- non-vacuity beyond 2^31: the 40th parameter of a flat list gets the 6-byte path
+    `0x017fffffffff` (39 × rest, then first) … -/
+example : NodePath.asPath (NodePath.add (2 ^ 39 - 1 + 2 ^ 39) ClassicEnv.leftBytes) = [0x01, 0x7f, 0xff, 0xff, 0xff, 0xff] := by
+  decide
+
+/-- … whereas the cast defect of finding C04-get-u32-path (same witness as
+    `C04.as_path_new_counterexample_get_u32`) sits in `NodePath::new` of a NEGATIVE number, which
+    only the optimiser's `path_optimizer` produces (it reads path atoms signed).  The classic
+    compiler runs that optimiser on its own output, so a parameter 32 levels deep is mis-addressed
+    once the optimiser re-roots its path: `(f 0x80000000)` — "first of the node at depth 31" —
+    becomes path 256 (depth 8).  Real witness (run/brun):
+    `(mod ((…((X . R0) . R1) … ) . R31) (defconstant KK 1000) (+ KK X))` compiles to
+    `(+ (q . 1000) 256)`.  Finding C03-deep-path-get-u32. -/
+theorem deep_path_optimizer_counterexample :
+    NodePath.new (Bytes.toInt [0x80, 0, 0, 0]) = 128 ∧
+    NodePath.stepPath [0x80, 0, 0, 0] false = [0x01, 0x00] ∧
+    Path.compose (Bytes.toNatBE [0x80, 0, 0, 0]) 2 = 2 ^ 32 := by
+  decide
+
+/-- **`build_tree_program`.**  If every item program `pᵢ` evaluates in `env` to `vᵢ`, the program
+    built from a non-empty item list evaluates to the values laid out in the balanced shape
+    `build_tree` gives the names (`valueTree`), for any operator table implementing `c`.
+    (For the empty list the code emits `(q ())`, which is not used: there is no constants tree.) -/
+theorem build_tree_program_correct (ops : OpSem) (hops : Core.OpsCore ops) (env : Val)
+    (ents : List (Val × Val)) (hne : ents ≠ [])
+    (hev : ∀ e ∈ ents, Clvm.Evaluates ops e.1 env e.2) :
+    Clvm.Evaluates ops (buildTreeProgram (ents.map (·.1))) env (valueTree (ents.map (·.2))) := by
+  have := buildTreeProgramFuel_evaluates ops hops env ents.length ents (Nat.le_refl _) hne hev
+  unfold buildTreeProgram valueTree
+  rw [List.length_map, List.length_map]
+  exact this
+
+/-- non-vacuity: three quoted items; `(c (q . 10) (c (q . 20) (q . 30)))` gives `(10 20 . 30)`,
+    the shape of `build_tree [a b c] = (a b . c)`. -/
+example : buildTreeProgram [Core.qv (.atom [10]), Core.qv (.atom [20]), Core.qv (.atom [30])]
+      = .pair (.atom [4]) (.pair (Core.qv (.atom [10])) (.pair
+          (.pair (.atom [4]) (.pair (Core.qv (.atom [20])) (.pair (Core.qv (.atom [30])) Val.nil))) Val.nil)) ∧
+    valueTree [.atom [10], .atom [20], .atom [30]] = .pair (.atom [10]) (.pair (.atom [20]) (.atom [30])) ∧
+    buildTree [[97], [98], [99]] = .pair (.atom [97]) (.pair (.atom [98]) (.atom [99])) := by decide
+example : Clvm.Evaluates Ops.chiaOps
+    (buildTreeProgram [Core.qv (.atom [10]), Core.qv (.atom [20]), Core.qv (.atom [30])]) Val.nil
+    (valueTree [.atom [10], .atom [20], .atom [30]]) :=
+  build_tree_program_correct Ops.chiaOps Core.chiaOps_core Val.nil
+    [(Core.qv (.atom [10]), .atom [10]), (Core.qv (.atom [20]), .atom [20]), (Core.qv (.atom [30]), .atom [30])]
+    (by simp) (by intro e he; simp at he; rcases he with rfl | rfl | rfl <;> exact Core.ev_quote _ _ _)
+
+/-- **the constants table.**  The table read from `build_tree(names)` under `NodePath.first()`
+    is aligned with the constants: each entry's path selects, in `(CONSTANTS . ARGS)`, the value
+    of the constant it names (names non-empty, as `build_used_constants_names` guarantees:
+    the empty name is MAIN and is excluded). -/
+theorem constants_paths_correct (ents : List (Bytes × Val)) (hall : ∀ e ∈ ents, e.1 ≠ []) (args : Val) :
+    Aligned (ConstOk (.pair (valueTree (ents.map (·.2))) args))
+      (constantsSymbolTable (ents.map (·.1))) ents :=
+  constants_table_aligned ents hall args
+
+example : constantsSymbolTable [[97], [98], [99], [100], [101]]
+    = [(.atom [97], [8]), (.atom [98], [12]), (.atom [99], [10]), (.atom [100], [22]), (.atom [101], [30])] := by decide
+
+/-- **the classic run-time environment** (classic analogue of `C01.arg_path_in_env` +
+    `finalize_env`).  With a non-empty list of used constants/functions `(nameᵢ, itemᵢ, valueᵢ)`
+    whose item programs evaluate (in the program's arguments) to their values:
+      (1) the emitted argument expression `(c TREE_PROGRAM 1)` evaluates to `(CONSTANTS . args)`;
+      (2) every name `com` resolves through a function's table `local ++ constants`
+          (`all_symbols` of `add_one_function`, first match) is resolved to a path that selects,
+          in that environment, the argument bound to the name if the parameter pattern binds it
+          (parameters shadow constants), and otherwise the value of the constant of that name
+          — `args` is arbitrary, so this covers a function's table in the environment
+          `(CONSTANTS . function arguments)` a call builds, as well as MAIN's;
+      (3) hence `(a MAIN (c TREE_PROGRAM 1))` returns whatever MAIN's code returns in that
+          environment. -/
+theorem classic_env_paths_correct (ops : OpSem) (hops : Core.OpsCore ops)
+    (ents : List (Bytes × Val × Val)) (hne : ents ≠ []) (hnames : ∀ e ∈ ents, e.1 ≠ [])
+    (args : Val) (hev : ∀ e ∈ ents, Clvm.Evaluates ops e.2.1 args e.2.2)
+    (pat : Rich) (hok : classicPatOk pat = true) (ρ : Lang.Env)
+    (hb : Lang.bindPat pat (Lang.SV.ofVal args) = some ρ) :
+    Clvm.Evaluates ops (argTree (ents.map (·.2.1))) args (.pair (valueTree (ents.map (·.2.2))) args) ∧
+    (∀ name pb, firstSymbol name (allSymbols (patVal pat) (ents.map (·.1))) = some pb →
+      (∃ w, Lang.lookupEnv name ρ = some (Lang.SV.ofVal w) ∧
+          Path.lookup pb (.pair (valueTree (ents.map (·.2.2))) args) = .ok w) ∨
+      (Lang.lookupEnv name ρ = none ∧
+        ∃ v, List.lookup name (ents.map (fun e => (e.1, e.2.2))) = some v ∧
+          Path.lookup pb (.pair (valueTree (ents.map (·.2.2))) args) = .ok v)) ∧
+    (∀ mainE main v, Clvm.Evaluates ops mainE args main →
+      Clvm.Evaluates ops main (.pair (valueTree (ents.map (·.2.2))) args) v →
+      Clvm.Evaluates ops (.pair (.atom [2]) (.pair mainE (.pair (argTree (ents.map (·.2.1))) Val.nil))) args v) := by
+  have h1 : Clvm.Evaluates ops (argTree (ents.map (·.2.1))) args (.pair (valueTree (ents.map (·.2.2))) args) := by
+    have := argTree_evaluates ops hops args (ents.map (·.2)) (by cases ents <;> simp_all)
+      (by intro e he; obtain ⟨e', he', rfl⟩ := List.mem_map.mp he; exact hev e' he')
+    simpa [List.map_map, Function.comp_def] using this
+  refine ⟨h1, ?_, ?_⟩
+  · intro name pb hf
+    have hemp : (!(ents.map (·.1)).isEmpty) = true := by cases ents <;> simp_all
+    unfold allSymbols at hf
+    rw [hemp, argsRoot_true, firstSymbol_append] at hf
+    have hloc := symbol_table_paths_correct pat hok 3 (by omega)
+      (.pair (valueTree (ents.map (·.2.2))) args) args (by rw [PathAlg.lookupNat_three]) ρ hb
+    cases hl : firstSymbol name (symbolTableForTree (patVal pat) 3) with
+    | some p =>
+      rw [hl] at hf; simp at hf; subst hf
+      exact Or.inl (firstSymbol_aligned _ name _ ρ hloc p hl)
+    | none =>
+      rw [hl] at hf; simp only at hf
+      refine Or.inr ⟨firstSymbol_aligned_none _ name _ ρ hloc hl, ?_⟩
+      have hc := constants_table_aligned (ents.map (fun e => (e.1, e.2.2)))
+        (by intro e he; obtain ⟨e', he', rfl⟩ := List.mem_map.mp he; exact hnames e' he') args
+      simp only [List.map_map, Function.comp_def] at hc
+      exact firstSymbol_constAligned _ name _ _ hc pb hf
+  · intro mainE main v hm hv
+    exact Core.ev_apply ops mainE _ args main _ v hm h1 hv
+
+/-- non-vacuity: `(mod (X Y) (defconstant K 7) (defun F …) …)` shape — constants `F`, `K`
+    (sorted), arguments `(5 6)`; `K` at path 6, `X` at 5, `Y` at 11 of `((F . 7) . (5 6))`. -/
+example : allSymbols (patVal (.cons (.atom [88]) (.cons (.atom [89]) .nil))) [[70], [75]]
+    = [(.atom [88], [5]), (.atom [89], [11]), (.atom [70], [4]), (.atom [75], [6])] := by decide
+example : (Lang.bindPat (.cons (.atom [88]) (.cons (.atom [89]) .nil))
+    (Lang.SV.ofVal (.pair (.atom [5]) (.pair (.atom [6]) (.atom []))))).isSome = true := by decide
+example : Path.lookup [6] (.pair (valueTree [.atom [1], .atom [7]]) (.pair (.atom [5]) (.pair (.atom [6]) (.atom []))))
+    = .ok (.atom [7]) := rfl
+
+/-- **no constants tree**: the argument expression is `1`, arguments are addressed from the root. -/
+theorem classic_env_paths_correct_no_constants (pat : Rich) (hok : classicPatOk pat = true)
+    (args : Val) (ρ : Lang.Env) (hb : Lang.bindPat pat (Lang.SV.ofVal args) = some ρ)
+    (name pb : Bytes) (hf : firstSymbol name (allSymbols (patVal pat) []) = some pb) :
+    argTree [] = .atom [1] ∧
+    ∃ w, Lang.lookupEnv name ρ = some (Lang.SV.ofVal w) ∧ Path.lookup pb args = .ok w := by
+  refine ⟨by decide, ?_⟩
+  have hnil : constantsSymbolTable [] = [] := by decide
+  unfold allSymbols at hf
+  rw [hnil, List.append_nil] at hf
+  exact symbol_table_first_entry_correct pat hok 1 (by omega) args args (PathAlg.lookupNat_one args) ρ hb name pb hf
+
+example : firstSymbol [89] (allSymbols (patVal (.cons (.atom [88]) (.cons (.atom [89]) .nil))) []) = some [5] := by decide
 
 end C03
